@@ -105,6 +105,24 @@ func eqAnyOrder(got []any, want []any) bool {
 	if len(got) != len(want) {
 		return false
 	}
+	if len(got) > 5 {
+		// greedy matching (content equality is an equivalence relation); each
+		// comparison is a branch instead of a term of an n!-way disjunction
+		used := make([]bool, len(want))
+		for _, g := range got {
+			found := false
+			for j := range want {
+				if !used[j] && verif.Eq(g, want[j]) {
+					used[j], found = true, true
+					break
+				}
+			}
+			if !found {
+				return false
+			}
+		}
+		return true
+	}
 	var alts []bool
 	var rec func(k int)
 	perm := append([]any(nil), want...)
